@@ -3,12 +3,49 @@
 use crate::wire::*;
 use rv::prelude::*;
 
+// ---- constructors / writers the generator cannot derive (derived fields)
+#[allow(non_snake_case)]
+pub fn mk_VonMises(a: &mut Args) -> VonMises {
+    let mu = a.f();
+    let k = a.f();
+    let _i0_k = a.f(); // derived field of the model: recomputed by the real constructor
+    VonMises::new_unchecked(mu, k)
+}
+#[allow(non_snake_case)]
+pub fn wr_VonMises(v: &VonMises) -> String {
+    [tok(&v.mu()), tok(&v.k()), tok(&rv::misc::bessel::i0(v.k()))].join(" ")
+}
+
 pub fn dispatch(op: &str, kind: &str, a: &mut Args) -> Option<String> {
     use rv::misc::LogSumExp;
     Some(match op {
         "logsumexp" => {
             let xs = a.list(|a| a.f());
             tok(&xs.iter().logsumexp())
+        }
+        // ---- C09 probes (call-history independence of equality / queries)
+        "c09.mixture_eq_after_query" => {
+            let m1 = Mixture::new(vec![0.25, 0.75], vec![Gaussian::new_unchecked(0.0, 1.0), Gaussian::new_unchecked(1.0, 2.0)]).unwrap();
+            let m2 = m1.clone();
+            let before = m1 == m2;
+            let _ = m1.ln_f(&0.3_f64);
+            let after = m1 == m2;
+            format!("{} {}", tok(&before), tok(&after))
+        }
+        "c09.sics_eq_t2" => {
+            let a = ScaledInvChiSquared::new_unchecked(a.f(), a.f());
+            let b = ScaledInvChiSquared::new_unchecked(a.v(), a.t2() + 1.0);
+            tok(&(a == b))
+        }
+        "c09.skellam_stale" => {
+            let (m1, m2, m1b) = (a.f(), a.f(), a.f());
+            let x = a.i() as i32;
+            let mut s = Skellam::new_unchecked(m1, m2);
+            let _ = s.ln_f(&x);
+            s.set_mu_1_unchecked(m1b);
+            let got = s.ln_f(&x);
+            let fresh = Skellam::new_unchecked(m1b, m2).ln_f(&x);
+            format!("{} {}", tok(&got), tok(&fresh))
         }
         _ => return None,
     })
